@@ -66,7 +66,9 @@ def main():
                         dm0 = sh(f"timeout 120 {PY} {d}/demo.py", env=env0)
                         rec["demo_without_patch_rc"] = dm0.returncode
             t0 = time.time()
-            c = sh(f"cd {ROOT} && ./check {prop} --tier {args.tier}", env=dict(os.environ, VERIF_REPO=tree), timeout=3600)
+            c = sh(f"cd {ROOT} && ./check {prop} --tier {args.tier}",
+                   env=dict(os.environ, VERIF_REPO=tree, VERIF_EVIDENCE_DIR=os.path.join(ROOT, ".work", "seeded-evidence")),
+                   timeout=3600)
             rec["check_rc"] = c.returncode
             rec["wall_s"] = round(time.time() - t0, 1)
             vl = [l for l in c.stdout.splitlines() if l.startswith("VIOLATION")]
